@@ -218,6 +218,18 @@ func uploadBundle(ctx context.Context, bundle *Bundle, bundleEntriesPerFile uint
 		return err
 	}
 
+	// a key listed several times is uploaded once: bundle entries map one-to-one to files
+	seen := make(map[string]struct{}, len(files))
+	uniqueFiles := make([]string, 0, len(files))
+	for _, file := range files {
+		if _, ok := seen[file]; ok {
+			continue
+		}
+		seen[file] = struct{}{}
+		uniqueFiles = append(uniqueFiles, file)
+	}
+	files = uniqueFiles
+
 	if len(files) == 0 {
 		bundle.l.Warn("Uploading bundle with 0 files")
 	}
